@@ -17,6 +17,7 @@ type Op struct {
 	Out     interface{} // observed result
 }
 
+//go:norace
 func (o Op) String() string {
 	if o.Pending {
 		return fmt.Sprintf("T%d %s(%v) [pending]", o.Thread, o.Name, o.In)
@@ -35,6 +36,8 @@ type Model interface {
 
 // Check reports whether the history is linearizable; on success it returns one witness order.
 // Pending operations may take effect or not.
+//
+//go:norace
 func Check(m Model, h []Op) (bool, []int) {
 	n := len(h)
 	if n > 30 {
